@@ -17,6 +17,8 @@ BUILTIN = {
     'std::option::Option': ('', [('Some', 'tuple', 1), ('None', 'unit', 0)]),
     'std::result::Result': ('', [('Ok', 'tuple', 1), ('Err', 'tuple', 1)]),
     'std::cmp::Ordering': ('std::cmp::Ordering::', [('Less', 'unit', 0), ('Equal', 'unit', 0), ('Greater', 'unit', 0)]),
+    'std::collections::hash_map::Entry': ('std::collections::hash_map::Entry::', [('Occupied', 'tuple', 1), ('Vacant', 'tuple', 1)]),
+    'std::collections::btree_map::Entry': ('std::collections::btree_map::Entry::', [('Occupied', 'tuple', 1), ('Vacant', 'tuple', 1)]),
 }
 
 
@@ -301,6 +303,9 @@ def bstr(t, pol=True):
     return parts[0] if len(parts) == 1 else '(' + ' && '.join(parts) + ')'
 
 
+ENTRY_FNS = ('std::collections::HashMap::entry', 'std::collections::BTreeMap::entry')
+
+
 def cmp_conds(subj_term, pred_names):
     """`a.cmp(&b)` matched against Ordering variants, as comparisons; `uN::try_from(x)` of a wider unsigned x matched
     against Ok / Err, as the range test it is."""
@@ -308,6 +313,10 @@ def cmp_conds(subj_term, pred_names):
         names = frozenset(pred_names)
         lit = '(%s::MAX < %s)' % (subj_term[1][len('narrow::'):], S.show(subj_term[2][0]))
         return {frozenset(['Ok']): [(lit, False)], frozenset(['Err']): [(lit, True)]}.get(names)
+    if subj_term is not None and subj_term[0] == 'call' and subj_term[1] in ENTRY_FNS and len(subj_term[2]) == 2:
+        # `match m.entry(k) { Occupied(_) => .., Vacant(_) => .. }` asks whether the key is present
+        lit = '%s::contains_key(%s, %s)' % (subj_term[1].rsplit('::', 1)[0], S.show(subj_term[2][0]), S.show(subj_term[2][1]))
+        return {frozenset(['Occupied']): [(lit, True)], frozenset(['Vacant']): [(lit, False)]}.get(frozenset(pred_names))
     if subj_term is None or subj_term[0] != 'call' or subj_term[1].split('::')[-1] != 'cmp' or not subj_term[1].startswith(('std::cmp::', 'core::cmp::')) or len(subj_term[2]) != 2:
         return None
     a, b = S.show(subj_term[2][0]), S.show(subj_term[2][1])
